@@ -453,17 +453,6 @@ Fixpoint server_run (sv : sstate) (ns : list note) : res sstate :=
 
 (* ---------- which requests can make a handler panic ---------------------------------------------------------------- *)
 
-(* the ids the line map of [key] can hand to the code actions are nodes of a live note *)
-Definition line_target_ok (g : graph) (key : string) (line : nat) : bool :=
-  match get_node_id_at g key line with
-  | Ok (Some target) =>
-      match key_of g target with
-      | Ok k => match collect_key g k with Ok t => contains t target | Panic _ => false end
-      | Panic _ => false
-      end
-  | _ => true
-  end.
-
 (* the link under the cursor has a sound end column (Pos.key_range subtracts 1 from it) *)
 Definition link_end_ok (v : IweV.Pos.variant) (docs : list (string * doc)) (key : string) (p : IweV.Pos.pos) : bool :=
   match alookup key docs with
@@ -478,21 +467,34 @@ Definition link_end_ok (v : IweV.Pos.variant) (docs : list (string * doc)) (key 
 Definition rename_target_ok (key new_name : string) : bool :=
   String.eqb (from_rel_link_url new_name (key_parent key)) (key_from_file_name new_name).
 
+(* The classifier.  ServerFacts.C12_handler_panic_domain: at every state reached by Server::new on
+   notes with distinct keys and any notifications, `handle cf sv r = Panic _` implies
+   `may_panic cf sv r = true`.  The classes (each shown real in ServerFacts S3b):
+     1  the note of the request does not exist: inlay hints, formatting, code actions (exact);
+     2  codeAction/resolve without data / kind, or outside ActionsTotal.resolve_domain (exact): a
+        stale or foreign node id, a kind that does not apply to the node, no key left to draw;
+     3  a library directory that is not absolute: every method that builds a URI;
+     4  the tree before d2c35b3 (`line_range` of a list whose first item is empty): definition,
+        prepare rename, rename;
+     5  prepare rename on a link whose end column is 0 (`end.character - 1`);
+     6  rename whose new name resolves, from the directory of the note under the cursor, to another
+        key than the one the patch was built under (a note in a sub-directory), and - before
+        fix-rename-dangling - a link to no note;
+     7  executeCommand: whatever the (unmodelled) command does;  8  an unknown method. *)
 Definition may_panic (cf : config) (sv : sstate) (r : request) : bool :=
   let g := gs_graph (ss_gs sv) in
   match r with
-  | RInlayHint key => negb (key_exists g key)
+  | RInlayHint key | RFormatting key => negb (key_exists g key)
   | RInlineValues | RCompletion _ | RCompletionResolve => false
   | RDocumentSymbol _ | RWorkspaceSymbol _ _ | RReferences _ => negb (base_ok (cf_base cf))
   | RDefinition _ _ => negb (IweV.Pos.v_empty_item (cf_pos cf))
-  | RCodeAction key line _ _ => negb (key_exists g key) || negb (line_target_ok g key line)
+  | RCodeAction key _ _ _ => negb (key_exists g key)
   | RCodeActionResolve k data kg =>
       match k, data with
       | Some k, Some target =>
           negb (resolve_domain (graph_ctx g) k kg target) || negb (base_ok (cf_base cf))
       | _, _ => true
       end
-  | RFormatting key => negb (key_exists g key)
   | RPrepareRename key p =>
       negb (IweV.Pos.v_empty_item (cf_pos cf)) || negb (link_end_ok (cf_pos cf) (ss_docs sv) key p)
   | RRename key p new_name =>
